@@ -298,6 +298,8 @@ impl MethodsStatic {
     /// Get (or build, on first call) the [`Methods`] value.
     pub fn methods(&'static self) -> &'static Methods {
         self.cell.get_or_init(|| {
+            #[cfg(feature = "verif_hooks")]
+            let _no_preempt = crate::verif_hooks::NoPreempt::enter();
             let mut builder = MethodsBuilder::new();
             builder.heap_name = Some(MethodFrozenHeapName { name: self.name });
             (self.init)(&mut builder);
